@@ -212,8 +212,9 @@ pub struct WorkerSummary {
     pub faults: BTreeMap<String, u64>,
     pub probes: BTreeMap<String, u64>,
     pub nontrivial: u64,
-    pub fingerprints: Vec<u64>,
-    pub nontrivial_fingerprints: Vec<u64>,
+    pub distinct_fingerprints: u64,
+    pub distinct_nontrivial_fingerprints: u64,
+    pub fingerprint_file: String,
     pub solo_probes: u64,
     pub solo_probe_max_steps: u64,
     pub solo_by_op: BTreeMap<String, u64>,
@@ -403,16 +404,20 @@ fn cmd_worker(args: &[String]) {
             }
         }
     }
-    s.fingerprints = {
-        let mut v: Vec<u64> = fps.into_iter().collect();
-        v.sort();
-        v
-    };
-    s.nontrivial_fingerprints = {
+    // Fingerprints go to a binary side file (sorted u64 LE); the summary only carries counts.
+    s.distinct_fingerprints = fps.len() as u64;
+    {
         let mut v: Vec<u64> = nfps.into_iter().collect();
         v.sort();
-        v
-    };
+        s.distinct_nontrivial_fingerprints = v.len() as u64;
+        let mut bytes = Vec::with_capacity(v.len() * 8);
+        for x in v {
+            bytes.extend_from_slice(&x.to_le_bytes());
+        }
+        let path = format!("{}/tmp-fp-{}-{}.bin", outdir, prop, worker);
+        std::fs::write(&path, bytes).expect("write fingerprint file");
+        s.fingerprint_file = path;
+    }
     s.wall_s = t0.elapsed().as_secs_f64();
     s.log_hash = log_hash;
     println!("{}", serde_json::to_string(&s).unwrap());
